@@ -291,7 +291,16 @@ var c09WriteMenu = []struct {
 	{"WE", func(id int) []vPoint { // even timestamps (disjoint from WO: files interleaved in time without duplicate keys)
 		return []vPoint{c09Pt(id, "a", 2, "fi"), c09Pt(id, "a", 4, "fi"), c09Pt(id, "b", 2, "fs"), c09Pt(id, "b", 4, "fs")}
 	}},
+	// one timestamp per batch (both series): histories over G1F..G4F put one series into up to three out-of-order files
+	// (flush generations going backwards in time) without writing any key twice
+	{"G1", func(id int) []vPoint { return []vPoint{c09Pt(id, "a", 1, "fi"), c09Pt(id, "b", 1, "fs")} }},
+	{"G2", func(id int) []vPoint { return []vPoint{c09Pt(id, "a", 2, "fi"), c09Pt(id, "b", 2, "fs")} }},
+	{"G3", func(id int) []vPoint { return []vPoint{c09Pt(id, "a", 3, "fi"), c09Pt(id, "b", 3, "fs")} }},
+	{"G4", func(id int) []vPoint { return []vPoint{c09Pt(id, "a", 4, "fi"), c09Pt(id, "b", 4, "fs")} }},
 }
+
+// c09GenerationOps: alphabet of the "generations" pass (every order of the four single-timestamp flushes, repetitions included)
+var c09GenerationOps = []string{"G1F", "G2F", "G3F", "G4F"}
 
 func c09WriteIndex(name string) int {
 	for i := range c09WriteMenu {
@@ -1310,8 +1319,14 @@ func c09FmtRows(rows []c09Row) string {
 
 // c09RunHistory runs ops on a fresh shard. The oracle is evaluated after step i iff check(i) (second result:
 // with the full query set). Returns the index of the first no-op step (or -1).
+// c09DirSeq: every execution gets a directory of its own - process-global caches of the engine are keyed by file path, and
+// file names restart at 00000001 in a new shard, so a directory reused by the next history can serve stale metadata
+var c09DirSeq int
+
 func c09RunHistory(rep *kit.Report, dir string, ops []string, check func(i int) (bool, int)) (noopAt int, failed bool) {
 	noopAt = -1
+	c09DirSeq++
+	dir = fmt.Sprintf("%s-%d", dir, c09DirSeq)
 	_ = os.RemoveAll(dir)
 	v, err := vOpenShard(dir)
 	if err != nil {
@@ -1439,6 +1454,12 @@ func TestVerifC09(t *testing.T) {
 		rep.Note("pass %d: alphabet=%v depth=%d full_query_set_up_to_length=%d states_evaluated_from_length=%d", pi, ops, p.depth, p.fullDepth, p.fromLen)
 		c09Explore(rep, scratch, ops, p.depth, p.fullDepth, p.fromLen)
 	}
+	if kit.Getenv("VERIF_DEPTH", "") == "" {
+		// generations pass: all sequences of the four single-timestamp "write + flush" ops up to length 4: one series spread
+		// over an ordered file and up to three out-of-order files (the statistics of several out-of-order files are combined)
+		rep.Note("generations pass: alphabet=%v depth=4", c09GenerationOps)
+		c09Explore(rep, scratch, c09GenerationOps, 4, 0, 1)
+	}
 }
 
 // c09Explore enumerates every op sequence of length depth in lexicographic order (c02Explore); a state (prefix)
@@ -1475,20 +1496,24 @@ func c09Explore(rep *kit.Report, scratch string, ops []string, depth, fullDepth,
 			rep.Count("histories", 1)
 			fmt.Println("H", strings.Join(names, " "))     // the worker's log names the running history if the process dies
 			noQuery := kit.Getenv("C09_NOQUERY", "") != "" // development aid: run the histories only
-			noopAt, failed := c09RunHistory(rep, dir, names, func(i int) (bool, int) {
-				if i+1 < fromLen || noQuery {
-					return false, 0 // evaluated by an earlier pass
-				}
-				if prev != nil && i < common {
-					return false, 0 // this prefix was evaluated by an earlier sequence of this worker
-				}
-				if i == 0 && depth > 1 && !kit.Mine(cur[0]*n) {
-					return false, 0 // length-1 prefixes are shared by several workers: one owner
-				}
-				if i < fullDepth {
-					return true, 2
-				}
-				return true, 1
+			var noopAt int
+			var failed bool
+			rep.RunConfirmed(func() {
+				noopAt, failed = c09RunHistory(rep, dir, names, func(i int) (bool, int) {
+					if i+1 < fromLen || noQuery {
+						return false, 0 // evaluated by an earlier pass
+					}
+					if prev != nil && i < common {
+						return false, 0 // this prefix was evaluated by an earlier sequence of this worker
+					}
+					if i == 0 && depth > 1 && !kit.Mine(cur[0]*n) {
+						return false, 0 // length-1 prefixes are shared by several workers: one owner
+					}
+					if i < fullDepth {
+						return true, 2
+					}
+					return true, 1
+				})
 			})
 			prev = cur
 			if failed {
